@@ -21,7 +21,7 @@ using sonic_json::StringView;
 static const char* kShape[] = {
   /*0*/ "@", /*1*/ "{\"a\":@}", /*2*/ "{\"a\":@,\"b\":@}", /*3*/ "{\"a\":{\"a\":@,\"b\":@},\"b\":@}", /*4*/ "{\"a\":{\"a\":{\"a\":@}}}", /*5*/ "[@,@]",
   /*6*/ "{\"b\":@,\"a\":@}", /*7*/ "{\"c\":@,\"a\":@}", /*8*/ "{\"a\":{\"b\":@,\"c\":@}}", /*9*/ "{\"\\u0061\":@}", /*10*/ "{\"a\":{\"a\":{\"a\":@,\"b\":@}},\"b\":@}", /*11*/ "{}",
-  /*12*/ "{\"a\":@,\"b\":{\"a\":@}}", /*13*/ "{\"a\\n\":@,\"a\":@}",
+  /*12*/ "{\"a\":@,\"b\":{\"a\":@}}", /*13*/ "{\"a\\n\":@,\"a\":@}", /*14*/ "{\"b\":[@,@],\"a\":@}", /*15*/ "[[@,@]]",
 };
 
 // the first slot of a text is one symbolic digit (an integer payload that stays symbolic through every parse and merge);
@@ -133,7 +133,9 @@ extern "C" int h_merge(void) {
   }
   free(et); free(xt);
 #ifdef ALLOC_SIMPLE
-  if (verif_live_heap() != 0) verif_fail("C13: heap blocks still allocated after every document was destroyed");
+  if (verif_live_heap() != 0)
+    verif_fail(which == 19 && twice ? "C13: heap blocks still allocated after a repeated ParseSchema (the text buffer of the earlier call is never released)"
+                                    : "C13: heap blocks still allocated after every document was destroyed");
 #endif
   return 0;
 }
